@@ -7,7 +7,7 @@ from harness import gen
 from harness.framework import Suite
 
 PID = "C06"
-LEAN_MODS = ["SwcVerif.Props.C06", "SwcVerif.Props.C06Gen"]
+LEAN_MODS = ["SwcVerif.Props.C06", "SwcVerif.Props.C06Gen", "SwcVerif.Props.C06Cut"]
 TRANSLATE_ALGO = ["AlgoTraverse", "AlgoSubtree", "AlgoNode", "AlgoCut"]   # Gen/AlgoSubtree.lean is regenerated on every run from swc_utils/subtree.py (to_sub_topology,
 # get_subtree_impl and its collecting lambda, propagate_removal and its closure); it calls the traversal generated into Gen/AlgoTraverse.lean;
 # Gen/AlgoCut.lean from tree_utils.py (to_subtree, cut_tree in both overloads with the closures _enter / _leave that call the user's callback)
@@ -22,6 +22,13 @@ THEOREMS = [
     # the generated propagate_removal (closure writing the id column through the traversal) marks exactly the descendants
     "RefineClosures.spec_wrap", "RefineClosures.spec_wrap_on", "RefineClosures.traverse_closures_on", "RefineClosures.spec_abs",
     "C06.generated_getSubtree_eq_model", "C06.propagate_closure", "C06.absMark_step", "C06.generated_propagateRemoval",
+    # Gen/AlgoCut.lean (tree_utils.py): the generated to_subtree equals the model's toSubtree; the generated cut_tree (both overloads, closures
+    # _enter / _leave calling the user's callback) equals the model's wrapper + to_subtree for EVERY stateful user callback, and Sub.cutTreeEnter /
+    # Sub.cutTreeLeave for the callbacks the model takes
+    "RefineCut.for1_loop", "RefineCut.markAll_inrange", "RefineCut.toSubtree_refines", "RefineCut.cutEnter_closure", "RefineCut.cutLeave_closure",
+    "RefineCut.cutTreeEnter_refines", "RefineCut.cutTreeLeave_refines", "RefineCut.cutTreeEnter_refines_model", "RefineCut.cutTreeLeave_refines_model",
+    "C06.generated_toSubtree_eq_model", "C06.generated_toSubtree_kept", "C06.generated_cutTreeEnter", "C06.generated_cutTreeEnter_eq_model",
+    "C06.generated_cutTreeLeave", "C06.generated_cutTreeLeave_eq_model",
 ]
 TRUSTED = ["hand-written models Model/Subtree.lean of to_sub_topology / propagate_removal / get_subtree_impl / to_subtree / cut_tree / CutByType / "
            "CutByFurcationOrder / CutShortTipBranch (tied by the c06.ops correspondence: new parents and new→old mapping compared exactly)"]
